@@ -571,6 +571,65 @@ def unnamed_background(chk, rng, dist):
     dist['unnamed_background_runs'] = runs[0]
 
 
+def command_line(chk, dist):
+    """the command-line entry point `bardolph.controller.run.main()` (lsrun): the files named on
+    the command line — or the text after -s — run one at a time, in the order given, each exactly
+    once (a file named twice runs twice), also when one of them does not compile or does not
+    exist.  Real process, real threads and clock, fake lights (-f); what is observed is the
+    sequence of values the scripts print."""
+    import shutil
+    import subprocess
+    import tempfile
+    from core import REPO
+    scratch = tempfile.mkdtemp(prefix='c08_cli_')
+    files = {'a.ls': 'print "a1" time 0.3 wait print "a2"', 'b.ls': 'print "b1" on all print "b2"',
+             'c.ls': 'print "c1" time 0.15 wait print "c2"', 'd.ls': 'print "d1"',
+             'bad.ls': 'print "x1" nosuch print "x2"', 'empty.ls': ''}
+    cases = [(['a.ls'], 'a1 a2'), (['a.ls', 'b.ls'], 'a1 a2 b1 b2'),
+             (['b.ls', 'a.ls', 'd.ls'], 'b1 b2 a1 a2 d1'),
+             (['a.ls', 'c.ls', 'b.ls', 'd.ls'], 'a1 a2 c1 c2 b1 b2 d1'),
+             (['c.ls', 'c.ls'], 'c1 c2 c1 c2'), (['d.ls', 'a.ls', 'd.ls', 'a.ls'], 'd1 a1 a2 d1 a1 a2'),
+             (['a.ls', 'bad.ls', 'd.ls'], 'a1 a2 d1'), (['missing.ls', 'c.ls', 'd.ls'], 'c1 c2 d1'),
+             (['empty.ls', 'd.ls', 'b.ls'], 'd1 b1 b2'),
+             (['-s', 'print "s1" time 0.2 wait print "s2"'], 's1 s2'),
+             (['-s', 'print "s1"', 'a.ls'], 's1'),      # with -s the files are not run
+             ([], '')]
+    try:
+        for name, text in files.items():
+            with open(os.path.join(scratch, name), 'w') as f:
+                f.write(text + '\n')
+        for args, want in cases:
+            code = ('import sys; sys.argv = ["lsrun", "-f"] + {!r}; '
+                    'from bardolph.controller import run; run.main()').format(args)
+            try:
+                r = subprocess.run([sys.executable, '-W', 'ignore', '-c', code], cwd=scratch,
+                                   capture_output=True, text=True, timeout=60,
+                                   env=dict(os.environ, PYTHONPATH=REPO))
+                got, err, timed_out = r.stdout.split(), r.stderr, False
+            except subprocess.TimeoutExpired as ex:
+                got, err, timed_out = (ex.stdout or b'').decode().split(), '', True
+            chk.count()
+            dist.setdefault('command_line_runs', 0)
+            dist['command_line_runs'] += 1
+            replay = {'kind': 'command-line', 'arguments': ['-f'] + args, 'files': files,
+                      'printed': got, 'expected': want.split(),
+                      'how': 'harness/c08.py command_line: python -c "... run.main()" in a scratch directory'}
+            if timed_out:
+                chk.violation('queue-not-drained:command-line',
+                              'lsrun {} did not end within 60 s (printed {})'.format(' '.join(args), got), replay)
+            elif 'Traceback' in err:
+                chk.violation('entry-point-raises:command-line',
+                              'lsrun {}: {}'.format(' '.join(args), err.strip().splitlines()[-1][:150]), replay)
+            elif got != want.split():
+                chk.violation('not-in-order-exactly-once:command-line',
+                              'lsrun {} printed {} ; the scripts in the order given print {}'.format(
+                                  ' '.join(args), got, want.split()), replay)
+            else:
+                chk.nontrivial_case(('cli', tuple(args)))
+    finally:
+        shutil.rmtree(scratch, ignore_errors=True)
+
+
 def run_case(jc_mod, scn, chooser, observe=True):
     run = Run(jc_mod, scn, chooser, observe)
     try:
@@ -692,6 +751,7 @@ def main():
     # ---- 2b. the entry point that owns a controller of its own
     entry_points(chk, rng, dist)
     unnamed_background(chk, rng, dist)
+    command_line(chk, dist)
 
     # ---- 3. correspondence with the Lean transition system, step by step
     answers = chk.driver.ask_many([('jc.replay', a) for a, _, _ in requests]) if requests else []
